@@ -138,7 +138,7 @@ MUTANTS = [
     Mutant("always-run", "job.py", in_function("RunJob.runs_command", replace_once("return self.step_hash is None", "return True")), ("R-C04-1",)),
     Mutant("apply-unchanged", "executor.py", in_function("Executor._run_hash_job", replace_once("        if new_hash != hash_job.old_hash or hash_job.cause == HashUpdateCause.CONFIRMED:", "        if True:")), ("R-C04-2",)),
     Mutant("recycle-drops-hash", "step.py", in_function("Step.after_recycle", replace_once("        self.set_resources(resources)\n", "        self.delete_hash()\n        self.set_resources(resources)\n")), ("R-C04-3", "R-C04-4")),
-    Mutant("recycle-repends-all", "step.py", in_function("Step.after_recycle", replace_once("        if state == StepState.FAILED or (state == StepState.SUCCEEDED and self.get_hash() is None):", "        if state != StepState.PENDING:")), ("R-C04-4",)),
+    Mutant("recycle-repends-all", "step.py", in_function("Step.after_recycle", replace_once("        if state == StepState.FAILED or (\n            state == StepState.SUCCEEDED and (self.get_hash() is None or hashed_args_changed)\n        ):", "        if state != StepState.PENDING:")), ("R-C04-4",)),
     Mutant("new-invalidator", "workflow.py", in_function("Workflow.register_nglob", replace_once("        step.add_nglob(ng)\n", "        step.add_nglob(ng)\n        step.delete_hash()\n")), ("R-C04-3",)),
     Mutant("new-repender", "workflow.py", in_function("Workflow.reconcile_targets", replace_once("            if isinstance(creator, Step):\n                self.db.execute(", "            if isinstance(creator, Step):\n                self.mark_step_pending(creator)\n                self.db.execute(")), ("R-C04-3",)),
     Mutant("shortcut-without-size", "hash.py", in_function("FileHash.refreshed", replace_once("            and self.size == st.st_size\n", "")), ("R-C04-5",)),
